@@ -2,6 +2,7 @@ package props
 
 import (
 	"bytes"
+	"encoding/json"
 	"errors"
 	"fmt"
 	"sync"
@@ -23,11 +24,20 @@ func c04Key(r *gen.Rand) []byte {
 	case 1:
 		return r.Bytes(r.Range(66, 200))
 	case 2:
+		if r.Bool() {
+			return nil // the zero-length key as a nil slice (`var key MessageIntegrity`): the same key as []byte{}
+		}
+
 		return []byte{}
 	default:
 		return r.Bytes(r.Intn(64))
 	}
 }
+
+// c04Pass is a checker that has nothing to object to.
+type c04Pass struct{}
+
+func (c04Pass) Check(*stun.Message) error { return nil }
 
 // c04Oracle: should Check(key) succeed on these bytes?
 func c04Oracle(b []byte, rm *ref.Msg, key []byte) (pass bool, why string) {
@@ -95,6 +105,18 @@ func c04Judge(c *core.Ctx, b, key []byte, what string, mustFail bool) {
 		c.Violate("check-verdict", "check-verdict:"+what, map[string]interface{}{
 			"what": what, "input_hex": core.Hex(b), "key_hex": core.Hex(key), "lib": fmt.Sprint(cerr), "oracle": why,
 		})
+	}
+	// the same checker run through the Message.Check helper (alone, as a pointer, behind a checker that passes): the verdict
+	// is the checker's
+	mik := stun.MessageIntegrity(key)
+	for hv, herr := range []error{m.Check(mik), m.Check(&mik), m.Check(c04Pass{}, mik)} {
+		if (herr == nil) != (cerr == nil) {
+			c.Violate("check-verdict", "check-verdict:Message.Check-helper", map[string]interface{}{
+				"what": what, "input_hex": core.Hex(b), "key_hex": core.Hex(key), "direct": fmt.Sprint(cerr), "through_Message.Check": fmt.Sprint(herr), "form": hv, "oracle": why,
+			})
+
+			break
+		}
 	}
 	if mustFail && cerr == nil {
 		c.Violate("tamper-undetected", "tamper-undetected:"+what, map[string]interface{}{
@@ -353,6 +375,10 @@ func c04Sign(c *core.Ctx, r *gen.Rand) (m *stun.Message, key []byte, ok bool) {
 	} else {
 		key = c04Key(r)
 		mi = stun.NewShortTermIntegrity(string(key))
+		if len(key) == 0 && r.Bool() {
+			mi = nil // zero bytes of key held in a nil slice
+			c.Count("nil_keys", 1)
+		}
 	}
 	pre := append([]byte(nil), m.Raw...)
 	l := len(pre) - 20 + 24
@@ -431,6 +457,33 @@ func c04(c *core.Ctx) {
 		wire := append([]byte(nil), m.Raw...)
 		c.Distinct(gen.HashBytes(wire))
 		c04Judge(c, wire, key, "signed", false)
+		if r.Chance(1, 3) && !m.Contains(stun.AttrFingerprint) {
+			// the signed message keeps growing until its buffer moves (the attribute values handed out so far stay where
+			// they were): what follows the MAC does not matter, it verifies
+			grow := cap(m.Raw) - len(m.Raw) + 1 + r.Intn(64)
+			if len(m.Raw)+grow < 60000 {
+				m.Add(stun.AttrSoftware, r.Bytes(grow))
+				c.Count("signed_then_grown_beyond_capacity", 1)
+				if err := stun.MessageIntegrity(key).Check(m); err != nil {
+					c.Violate("signed-does-not-verify", "signed-does-not-verify:after-growing", map[string]interface{}{"raw_hex": core.Hex(m.Raw), "key_hex": core.Hex(key), "err": err.Error()})
+
+					return
+				}
+			}
+		}
+		if r.Chance(1, 8) {
+			// the message as an application value restored from encoding/json (all fields are exported): Raw and the
+			// attribute values are separate allocations with the same content
+			var back stun.Message
+			if js, err := json.Marshal(m); err == nil && json.Unmarshal(js, &back) == nil && bytes.Equal(back.Raw, m.Raw) && len(back.Attributes) == len(m.Attributes) {
+				c.Count("signed_then_restored_from_json", 1)
+				if err := stun.MessageIntegrity(key).Check(&back); err != nil {
+					c.Violate("signed-does-not-verify", "signed-does-not-verify:restored-from-json", map[string]interface{}{"raw_hex": core.Hex(m.Raw), "key_hex": core.Hex(key), "err": err.Error()})
+
+					return
+				}
+			}
+		}
 		for k := 0; k < 3; k++ {
 			wrong := c04Key(r)
 			if k == 0 && len(key) > 0 {
